@@ -53,6 +53,11 @@ def scenarios(quick):
     for m in (("pe", "elf", "hashmath") if quick else modrules):
         add("scan:module:" + m, ["compiler 0", "add 0 - " + yv.hx(modrules[m]), "getrules 0 0", "cdestroy 0", "blob 5 " + yv.hx(seeds[m])],
             ["scanner 0 0", "scan target=s0 via=mem data=@5", "sdestroy 0"])
+    # growth inside a scan: the matches notebook needs a second page (thousands of short matches), the iterators notebook needs one (> 512 loop starts in one
+    # evaluation), the per-scanner regex fiber pool grows, an object array grows (tests.integer_array is preset; math/hash module strings are allocated)
+    big = ["compiler 0", "add 0 - " + yv.hx('rule many { strings: $a = "a" $b = /b[bc]/ condition: #a > 10 or $b } '
+                                             'rule loops { condition: for all i in (0..700) : (for any j in (0..1) : (j == 1)) } '), "getrules 0 0", "cdestroy 0", "blob 5 " + yv.hx(b"a" * 12500 + b"bbbcbc" * 40)]
+    add("scan:growth", big, ["scanner 0 0", "scan target=s0 via=mem ml=0 data=@5", "scan target=s0 via=mem ml=0 data=@5", "sdestroy 0"])
     add("init-fini", [], ["fini", "init"])
     return S
 
